@@ -276,9 +276,12 @@ func runVortex(c *mon.Ctx, cfg vtxCfg) {
 		c.Inconclusive("%s: subgroup generator mismatch", e.cls)
 		return
 	}
-	xcls := []string{"generic", "zero", "base", "small-domain", "big-domain"}
-	acls := []string{"generic", "zero", "one", "base", "generic"}
-	mcls := []string{"random", "random", "max", "random", "zero"}
+	// the special evaluation points (nodes of the row domain and of the codeword domain, where the Lagrange
+	// evaluation takes its shortcut) also with a random matrix and a genuine extension element as alpha, so that the
+	// shortcut has to return a full extension value
+	xcls := []string{"generic", "zero", "base", "small-domain", "big-domain", "small-domain", "big-domain", "one", "big-domain"}
+	acls := []string{"generic", "zero", "one", "base", "generic", "generic", "generic", "generic", "base"}
+	mcls := []string{"random", "random", "max", "random", "zero", "random", "random", "random", "max"}
 	for i := range xcls {
 		c.Current(e.cls + " x=" + xcls[i])
 		st, ok := e.honest(mcls[i], xcls[i], acls[i])
